@@ -426,7 +426,7 @@ func runShared(c *Ctx) {
 					// a slice parameter: every in-target caller must hand in fresh/per-call memory
 					okk, why = c.callersPassFresh(f, w.target)
 				}
-				if owner == "Result" && field == "out" && core.Outer(f).Name() == "Redefine" {
+				if owner == "Result" && field == "out" && (core.Outer(f).Name() == "Redefine" || f == p.GeneratedBody()) {
 					// listed exception (one symbol, reason): the outputs come straight from reflect.Value.Call, which
 					// allocates exactly len(out) elements; append therefore always reallocates (trusted: reflect)
 					okk, why = true, "listed exception: Result.out is the exact-length slice made by reflect.Value.Call; append reallocates"
